@@ -108,8 +108,7 @@ def export_shapes():
            ("Not", ("forall", qa, ("And", ("Or", a, b), ("Not", ("Or", a, b))))),
            ("And", ("forall", qx, ("LT", ("Plus", x, L(1, INT)), y)), ("LT", ("Plus", x, L(1, INT)), y))]
     # names that need quoting or collide with the printer's own names
-    odd = ["a b", "let", "and", "1x", "x.y", "A#b", "par(en", "semi;c", ".def_0", ".def_1", "__x0", "true", "Int", "_", "!", "as",
-           "forall", "exists", "a-b", "p|q", "x+y", "ToReal", "Array", "BV", "True", "xor", "Real"]
+    odd = ODD_NAMES
     for nm in odd:
         sh.append(("And", S(nm), ("Or", S(nm), a), ("Not", ("Or", S(nm), a))))
     d0, d1, d2 = S(".def_0"), S(".def_1"), S(".def_2")
@@ -132,12 +131,22 @@ def export_shapes():
     return [Shape(t) for t in sh]
 
 
+ODD_NAMES = ["a b", "let", "and", "1x", "x.y", "A#b", "par(en", "semi;c", ".def_0", ".def_1", "__x0", "true", "Int", "_", "!", "as",
+             "forall", "exists", "a-b", "p|q", "x+y", "ToReal", "Array", "BV", "True", "xor", "Real", "push", "pop", "assert", "exit"]
+
+
 # ------------------------------------------------------------------------------------------------ export + round trip
 def _export_job(shape_t):
-    """Both forms (tree, let-DAG) of one skeleton in one interpretation: the script is built once."""
+    """Both forms (tree, let-DAG) of one skeleton in one interpretation: the script is built once.
+    A job ('after-hr', skeleton) prints the formula in the human-readable syntax first."""
+    hr_first = isinstance(shape_t, tuple) and len(shape_t) == 2 and shape_t[0] == "after-hr"
+    if hr_first:
+        shape_t = shape_t[1]
     shape = Shape(shape_t)
 
     def call(w, it, f):
+        if hr_first:
+            it.call(it.getattr(f, "serialize"), [])
         mod = w.repo.modules["pysmt.smtlib.script"]
         mk = it.module_global(mod, "smtlibscript_from_formula")
         try:
@@ -165,6 +174,19 @@ def _export_job(shape_t):
             except Unsupported as ex:
                 back = ("unsupported", str(ex))
             outs.append((text, ftext, back))
+        # the same export after the formula went through the other concrete syntax: the text must not change
+        try:
+            it.call(it.getattr(f, "serialize"), [])
+            for i, dag in enumerate((False, True)):
+                sio = it.call(ExtRef("io.StringIO"), [])
+                it.call(it.getattr(script, "serialize"), [sio], {"daggify": dag})
+                again = it.call(it.getattr(sio, "getvalue"), [])
+                fagain = it.call(to_smtlib, [f], {"daggify": dag})
+                if again != outs[i][0] or fagain != outs[i][1]:
+                    outs[i] = outs[i] + (("after a human-readable print of the same formula the export reads %r"
+                                          % ((again if again != outs[i][0] else fagain)[-160:],)),)
+        except (AbsRaise, Unsupported):
+            pass
         return outs
 
     def post(w, f, val, facts):
@@ -174,7 +196,8 @@ def _export_job(shape_t):
     if len(res) != 1 or res[0].kind != "valid":
         r = res[0]
         for dag in (False, True):
-            out = {"shape": repr(shape), "dag": dag, "c07": None, "c09": None, "text": None, "notes": [], "ops": []}
+            out = {"shape": repr(shape) + (" (after a human-readable print)" if hr_first else ""), "dag": dag, "c07": None,
+                   "c09": None, "text": None, "notes": [], "ops": []}
             if r.kind == "raises":
                 out["c07"] = ("raises", str(r.detail))
             else:
@@ -185,12 +208,16 @@ def _export_job(shape_t):
     w, f, vals = res[0].detail
     for dag, val in zip((False, True), vals):
         results.append(_export_eval(shape, shape_t, dag, w, f, val))
+    if hr_first:
+        for r_ in results:
+            r_["shape"] += " (after a human-readable print)"
     return results
 
 
 def _export_eval(shape, shape_t, dag, w, f, val):
     out = {"shape": repr(shape), "dag": dag, "c07": None, "c09": None, "text": None, "notes": [], "ops": []}
-    text, ftext, back = val
+    text, ftext, back = val[:3]
+    history_note = val[3] if len(val) > 3 else None
     out["text"] = text if len(text) < 600 else text[:600] + "..."
     seen, stack = set(), [f]
     while stack:
@@ -255,6 +282,8 @@ def _export_eval(shape, shape_t, dag, w, f, val):
             out["c09"] = ("unsupported", str(e))
     else:
         out["c09"] = ("invalid", "get_last_formula returned %r" % (g,))
+    if history_note and out["c09"][0] == "valid":
+        out["c09"] = ("invalid", history_note)
     return out
 
 
@@ -286,6 +315,9 @@ def export_results(repo, tier="quick"):
             once = [sh for sh in shapes if _mentions(sh.t, SMT_UNSPELLABLE)]
             shapes = proc.in_contexts([sh for sh in shapes if not _mentions(sh.t, SMT_UNSPELLABLE)]) + once
         jobs = [sh.t for sh in shapes]
+        # names both concrete syntaxes have to quote: also exported after a human-readable print
+        jobs += [("after-hr", sh.t) for sh in export_shapes()
+                 if _mentions(sh.t, set(ODD_NAMES)) and not _mentions(sh.t, SMT_UNDECLARABLE | SMT_UNSPELLABLE)]
         first = _export_job(jobs[0])          # warms the per-process tables before the pool forks
         _EXPORT[key] = first + [r for rs in parallel_map(_export_job, jobs[1:]) for r in rs]
     return _EXPORT[key]
@@ -651,11 +683,24 @@ def import_results(repo, tier="quick"):
 
 # ------------------------------------------------------------------------------------------------ human-readable round trip
 def _hr_job(shape_t):
+    smt_first = isinstance(shape_t, tuple) and len(shape_t) == 2 and shape_t[0] == "after-smt"
+    if smt_first:
+        shape_t = shape_t[1]
     shape = Shape(shape_t)
-    out = {"shape": repr(shape), "kind": None, "detail": "", "text": None}
+    out = {"shape": repr(shape) + (" (after an SMT-LIB print)" if smt_first else ""), "kind": None, "detail": "", "text": None}
 
     def call(w, it, f):
+        if smt_first:
+            it.call(it.module_global(w.repo.modules["pysmt.smtlib.printers"], "to_smtlib"), [f], {"daggify": False})
         txt = it.call(it.getattr(f, "serialize"), [])
+        try:
+            # the same serialisation after the formula went through the other concrete syntax
+            it.call(it.module_global(w.repo.modules["pysmt.smtlib.printers"], "to_smtlib"), [f], {"daggify": False})
+            txt2 = it.call(it.getattr(f, "serialize"), [])
+            if txt2 != txt:
+                return (txt, ("raise", "after an SMT-LIB print of the same formula the serialisation reads %r" % (txt2,)))
+        except (AbsRaise, Unsupported):
+            pass
         try:
             hp = it.call(it.module_global(w.repo.modules["pysmt.parsing"], "HRParser"), [w.env])
             g = ("ok", it.call(it.getattr(hp, "parse"), [txt]))
@@ -714,6 +759,7 @@ def hr_results(repo, tier="quick"):
         if tier == "thorough":
             shapes = proc.in_contexts(shapes)
         shapes = [sh.t for sh in shapes]
+        shapes += [("after-smt", sh.t) for sh in export_shapes() if _mentions(sh.t, set(ODD_NAMES))]
         first = _hr_job(shapes[0])
         _HR[key] = [first] + parallel_map(_hr_job, shapes[1:])
     return _HR[key]
